@@ -19,8 +19,10 @@ place() {
     C14-i) cp $S/demo_test.go lazyproto/seed_c14_demo_test.go; echo ./lazyproto/;;
     C19-i) cp $S/demo_test.go ./seed_c19_demo_test.go; echo .;;
     C20-i) cp $S/demo_test.go prototest/seed_c20_demo_test.go; echo ./prototest/;;
+    C15-j) cp $S/demo_test.go lazyproto/seed_c15_demo_test.go; echo ./lazyproto/;;
+    C20-j) cp $S/demo_test.go prototest/seeddemo_test.go; echo ./prototest/;;
     C07-e) cp -r $S SEED; rm -f SEED/patch.diff SEED/meta.json; mv SEED/demo_test.go cmd/protoc-gen-fastmarshal/seed_c07_demo_test.go; echo ./cmd/protoc-gen-fastmarshal/;;
-    *-c|*-d|*-e|*-f|*-g|*-h|*-i) cp -r $S SEED; rm -f SEED/patch.diff SEED/meta.json; echo SEEDDIR;;
+    *-c|*-d|*-e|*-f|*-g|*-h|*-i|*-j) cp -r $S SEED; rm -f SEED/patch.diff SEED/meta.json; echo SEEDDIR;;
     *) case "$pkgline" in
          csproto_test) cp $S/demo_test.go ./zz_seed_demo_test.go; echo .;;
          lazyproto_test) cp $S/demo_test.go lazyproto/zz_seed_demo_test.go; echo ./lazyproto/;;
@@ -35,6 +37,7 @@ run() {
   if [ "$where" = SEEDDIR ]; then
     case "$id" in
       C06-b) go run ./SEED/demo 2>&1 | tail -3; return ${PIPESTATUS[0]};;
+      C07-j) go run -tags "$TAGS" ./SEED/gen ./SEED/demo >/dev/null 2>&1; go test -count=1 -tags "$TAGS" ./SEED/demo 2>&1 | tail -3; return ${PIPESTATUS[0]};;
       C06-i) go test -count=1 -tags "$TAGS" ./SEED/demo/ 2>&1 | tail -3; return ${PIPESTATUS[0]};;
       C09-i|C15-i) go test -race -count=1 -tags "$TAGS" ./SEED/ 2>&1 | tail -3; return ${PIPESTATUS[0]};;
       C09-h|C12-h|C17-i) go run -tags "$TAGS" ./SEED/demo 2>&1 | tail -3; return ${PIPESTATUS[0]};;
@@ -43,7 +46,7 @@ run() {
       *) go test -count=1 -tags "$TAGS" ./SEED/ 2>&1 | tail -3; return ${PIPESTATUS[0]};;
     esac
   else
-    RACE=""; [ "$id" = C15-h ] && RACE="-race"
+    RACE=""; [ "$id" = C15-h ] && RACE="-race"; [ "$id" = C15-j ] && RACE="-race"
     go test $RACE -count=1 -tags "$TAGS" -run 'Seed|TestC14|TestC04' $where 2>&1 | tail -3; return ${PIPESTATUS[0]}
   fi
 }
